@@ -213,86 +213,108 @@ Definition view_okb (G : hist) : bool :=
 (** *** event-wise oracles (run over the implementation's answers) *)
 Definition is_ro (r : hrec) : bool := is_empty (h_ws r).
 
+(** [P] holds of every event, each judged against the history of the events before it *)
+Fixpoint all_events (P : hist -> op -> out -> bool) (G : hist) (evs : list (op * out)) : bool :=
+  match evs with
+  | [] => true
+  | ev :: r => P G (fst ev) (snd ev) && all_events P (hstep G (fst ev) (snd ev)) r
+  end.
+
 (** every refusal is justified / every acceptance is legal / epochs are consecutive:
     the answer equals the specification's at every non-[Gc] event *)
-Fixpoint conforms (G : hist) (evs : list (op * out)) : bool :=
-  match evs with
-  | [] => true
-  | (o, x) :: r => (is_gc o || out_eqb x (spec_out G o)) && conforms (hstep G o x) r
-  end.
+Definition conforms1 (G : hist) (o : op) (x : out) : bool := is_gc o || out_eqb x (spec_out G o).
+Definition conforms : hist -> list (op * out) -> bool := all_events conforms1.
 
 (** C03: a [WriteConflict] refusal has an overlapping committed writer of a common entity *)
-Fixpoint ww_justified (G : hist) (evs : list (op * out)) : bool :=
-  match evs with
-  | [] => true
-  | (o, x) :: r =>
-      (match o, x with
-       | Commit t, Err WriteConflict =>
-           match lookup t G with Some rt => is_act rt && ww_conf G t rt | None => false end
-       | _, _ => true
-       end) && ww_justified (hstep G o x) r
+Definition ww_just1 (G : hist) (o : op) (x : out) : bool :=
+  match o, x with
+  | Commit t, Err WriteConflict =>
+      match lookup t G with Some rt => is_act rt && ww_conf G t rt | None => false end
+  | _, _ => true
   end.
+Definition ww_justified : hist -> list (op * out) -> bool := all_events ww_just1.
 
-(** commit epochs are 1, 2, 3, ... in commit order *)
-Fixpoint epochs_ok (n : Z) (evs : list (op * out)) : bool :=
-  match evs with
-  | [] => true
-  | (Commit _, OkEpoch c) :: r => (c =? n + 1) && epochs_ok (n + 1) r
-  | _ :: r => epochs_ok n r
+(** C03: commit epochs are 1, 2, 3, ... in commit order *)
+Definition epoch1 (G : hist) (o : op) (x : out) : bool :=
+  match o, x with
+  | Commit _, OkEpoch c => c =? ncommitted G + 1
+  | _, _ => true
   end.
+Definition epochs_ok : hist -> list (op * out) -> bool := all_events epoch1.
 
 (** C04: a [SerializationFailure] refusal is of a Serializable transaction that read something
     an overlapping committed transaction wrote *)
-Fixpoint sf_justified (G : hist) (evs : list (op * out)) : bool :=
-  match evs with
-  | [] => true
-  | (o, x) :: r =>
-      (match o, x with
-       | Commit t, Err SerializationFailure =>
-           match lookup t G with
-           | Some rt => is_act rt && iso_eqb (h_iso rt) Serializable && rw_conf G t rt
-           | None => false end
-       | _, _ => true
-       end) && sf_justified (hstep G o x) r
+Definition sf_just1 (G : hist) (o : op) (x : out) : bool :=
+  match o, x with
+  | Commit t, Err SerializationFailure =>
+      match lookup t G with
+      | Some rt => is_act rt && iso_eqb (h_iso rt) Serializable && rw_conf G t rt
+      | None => false end
+  | _, _ => true
   end.
+Definition sf_justified : hist -> list (op * out) -> bool := all_events sf_just1.
 
-(** C04: no stale reader gets through: an accepted Serializable commit has no overlapping
-    committed writer of anything it read *)
-Fixpoint stale_refused (G : hist) (evs : list (op * out)) : bool :=
-  match evs with
-  | [] => true
-  | (o, x) :: r =>
-      (match o, x with
-       | Commit t, OkEpoch _ =>
-           match lookup t G with
-           | Some rt => negb (iso_eqb (h_iso rt) Serializable && rw_conf G t rt) && negb (ww_conf G t rt)
-           | None => false end
-       | _, _ => true
-       end) && stale_refused (hstep G o x) r
+(** C03/C04: nothing stale gets through: an accepted commit has no overlapping committed writer
+    of anything it wrote and, if Serializable, of anything it read *)
+Definition accept1 (G : hist) (o : op) (x : out) : bool :=
+  match o, x with
+  | Commit t, OkEpoch _ =>
+      match lookup t G with
+      | Some rt => is_act rt && negb (iso_eqb (h_iso rt) Serializable && rw_conf G t rt) && negb (ww_conf G t rt)
+      | None => false end
+  | _, _ => true
   end.
+Definition stale_refused : hist -> list (op * out) -> bool := all_events accept1.
 
-(** C04: a transaction with an empty write set (read-only) is refused at commit *)
-Fixpoint ro_refusals (G : hist) (evs : list (op * out)) : list Z :=
+(** C04 finding class K1: a Serializable transaction with an EMPTY write set is refused with
+    SerializationFailure because an overlapping committed transaction wrote something it read *)
+Definition k_ro_refused (G : hist) (t : Z) (r : hrec) : bool :=
+  is_ro r && iso_eqb (h_iso r) Serializable && rw_conf G t r.
+
+(** the refused commits of read-only transactions of a run, and whether each is in K1 *)
+Fixpoint ro_refusals (G : hist) (evs : list (op * out)) : list (Z * bool) :=
   match evs with
   | [] => []
-  | (o, x) :: r =>
-      (match o, x with
+  | ev :: r =>
+      (match fst ev, snd ev with
        | Commit t, Err (WriteConflict | SerializationFailure) =>
-           match lookup t G with Some rt => if is_act rt && is_ro rt then [t] else [] | None => [] end
+           match lookup t G with
+           | Some rt => if is_act rt && is_ro rt
+                        then [(t, k_ro_refused G t rt && out_eqb (snd ev) (Err SerializationFailure))] else []
+           | None => [] end
        | _, _ => []
-       end) ++ ro_refusals (hstep G o x) r
+       end) ++ ro_refusals (hstep G (fst ev) (snd ev)) r
   end.
+(** C04: read-only transactions are never refused (fails at HEAD exactly on class K1) *)
+Definition ro_never_refused (evs : list (op * out)) : bool := is_empty (ro_refusals [] evs).
+(** ... every such refusal is in K1 *)
+Definition k_ro_only (evs : list (op * out)) : bool :=
+  negb (is_empty (ro_refusals [] evs)) && forallb (fun p => snd p) (ro_refusals [] evs).
 
-(** C04: a transaction that overlaps no committed transaction is refused at commit *)
+(** C04: a transaction that overlaps no committed transaction is never refused *)
 Definition no_overlap (G : hist) (t : Z) (r : hrec) : bool :=
   forallb (fun p => (fst p =? t) || match h_end (snd p) with HCommitted c => c <=? h_start r | _ => true end) G.
-Fixpoint nonoverlap_refusals (G : hist) (evs : list (op * out)) : list Z :=
-  match evs with
-  | [] => []
-  | (o, x) :: r =>
-      (match o, x with
-       | Commit t, Err (WriteConflict | SerializationFailure) =>
-           match lookup t G with Some rt => if is_act rt && no_overlap G t rt then [t] else [] | None => [] end
-       | _, _ => []
-       end) ++ nonoverlap_refusals (hstep G o x) r
+Definition nonoverlap1 (G : hist) (o : op) (x : out) : bool :=
+  match o, x with
+  | Commit t, Err (WriteConflict | SerializationFailure) =>
+      match lookup t G with Some rt => negb (is_act rt && no_overlap G t rt) | None => true end
+  | _, _ => true
   end.
+Definition nonoverlap_ok : hist -> list (op * out) -> bool := all_events nonoverlap1.
+
+(** ** helpers used in the statements *)
+(** the transaction an operation addresses *)
+Definition target (o : op) : option Z :=
+  match o with
+  | Write t _ | Read t _ | Commit t | Abort t => Some t
+  | _ => None
+  end.
+(** the epochs returned by the successful commits of a run, in order *)
+Fixpoint commit_outs (ops : list op) (xs : list out) : list Z :=
+  match ops, xs with
+  | Commit _ :: ops', OkEpoch c :: xs' => c :: commit_outs ops' xs'
+  | _ :: ops', _ :: xs' => commit_outs ops' xs'
+  | _, _ => []
+  end.
+Fixpoint zseq (a : Z) (n : nat) : list Z :=
+  match n with O => [] | S k => a :: zseq (a + 1) k end.
